@@ -15,14 +15,16 @@ PLAN = dict(
                           "proportional splits only with the proportions proportional_mode::get_split can produce (left = n - n/2, right = n/2)",
                           "beyond 2^16 cells only chunk algebra (non-empty, inside, pairwise disjoint, volumes add up), no per-element counters",
                           "always inside an explicit task_arena (the implicit arena's size depends on the machine)"],
-    floor=dict(quick=250, thorough=5000),
+    floor=dict(quick=2000, thorough=50000),
     tiers=dict(
         quick=[det("rel", H, "cs-rel", 16, 320, 4, tso=True, time_cap=22),
                det("dbg", H, "cs-dbg", 16, 200, 4, tso=True, time_cap=16),
-               cmd("seq", RC, "plain", 1, ["1000"], link_tbb=False, ldflags=["-lrapidcheck"])],
+               cmd("seq", RC, "plain", 1, ["1000"], link_tbb=False, ldflags=["-lrapidcheck"]),
+               tsan("C05", 4, 80)],
         thorough=[det("rel", H, "cs-rel", 16, 6000, 5, tso=True, time_cap=330),
                   det("dbg", H, "cs-dbg", 16, 3000, 5, tso=True, time_cap=200),
-                  cmd("seq", RC, "plain", 2, ["20000"], link_tbb=False, ldflags=["-lrapidcheck"])],
+                  cmd("seq", RC, "plain", 2, ["20000"], link_tbb=False, ldflags=["-lrapidcheck"]),
+               tsan("C05", 16, 600)],
     ),
 )
 TEXT = dict(
